@@ -121,6 +121,12 @@ pub enum Licence {
 }
 
 pub fn licence_pdu(l: &Licence, preamble_flags: u8) -> Vec<u8> {
+    licence_pdu_flags(l, preamble_flags, SEC_LICENSE_PKT)
+}
+
+/// the same with the flags of the basic security header chosen (SEC_LICENSE_PKT must be among them;
+/// SEC_LICENSE_ENCRYPT_CS 0x0200 commonly is)
+pub fn licence_pdu_flags(l: &Licence, preamble_flags: u8, sec_flags: u16) -> Vec<u8> {
     let (ty, body) = match l {
         Licence::ValidClient { blob, blob_type } => {
             let mut w = W::new();
@@ -130,7 +136,7 @@ pub fn licence_pdu(l: &Licence, preamble_flags: u8) -> Vec<u8> {
         Licence::NewLicense { body } => (0x03u8, body.clone()),
     };
     let mut w = W::new();
-    w.u16le(SEC_LICENSE_PKT).u16le(0);
+    w.u16le(sec_flags).u16le(0);
     w.u8(ty).u8(preamble_flags).u16le((body.len() + 4) as u16).bytes(&body);
     w.done()
 }
